@@ -4,12 +4,14 @@ import DicomModel.Props.C24
 /-
 C23 — DICOM JSON round trip; deserialising any JSON text never panics.
 
-Part A (`from_json_no_panic`): for EVERY JSON tree (any shape, any depth, duplicate members,
-conflicting fields, bad tags, bad VRs …) whose strings are UTF-8, the model of
+Part A (`from_value_no_panic`, `from_str_no_panic`): for EVERY JSON tree (any shape, any depth,
+duplicate members, conflicting fields, bad tags, bad VRs …) whose strings are UTF-8, the model of
 `dicom_json::from_value` / `from_str` returns `ok` or `err`, never `panic`.  The model keeps the
 panic sites of the code (`&s[1..]`, `split_at(4)`, `.expect("failed to parse tag part")`, the
-final `unreachable!()`), and the theorem shows that they are not reachable in the repaired code.
-Part B (`json_rt`): see below.
+final `unreachable!()`), and the theorems show that they are not reachable in the repaired code.
+Part B (`json_rt`, `json_rt_text`): every well-typed data set without encapsulated pixel data
+comes back from `to_value`/`from_value` and `to_string`/`from_str` as `normDs ds` — exactly the
+documented normalisations — by structural induction over nested sequences of any depth.
 -/
 set_option linter.unusedSimpArgs false
 set_option linter.unusedVariables false
@@ -1225,5 +1227,332 @@ example :
       .seq 0x00400275 .SQ [[.prim 0x00400009 .SV (.i64 [-9007199254740993])], []],
       .prim 0x7FE00010 .OW (.u16 [1, 65535])]
     ds.wf = true ∧ elemsTyped ds = true ∧ elemsNoPix ds = true := by decide
+
+/-! ## `from_str`: the text path (duplicate members) -/
+
+theorem lookup_utf8 (k : Bytes) : ∀ (ms : List (Bytes × J)) (v : J), utf8Members ms = true →
+    lookup k ms = some v → v.utf8 = true
+  | [], v, _, h => by simp [lookup] at h
+  | (k', v') :: ms, v, hu, h => by
+    simp only [utf8Members, Bool.and_eq_true] at hu
+    simp only [lookup] at h
+    split at h
+    · simp at h; rw [← h]; exact hu.1.2
+    · exact lookup_utf8 k ms v hu.2 h
+
+theorem removeKey_utf8 (k : Bytes) : ∀ (ms : List (Bytes × J)), utf8Members ms = true →
+    utf8Members (removeKey k ms) = true
+  | [], _ => rfl
+  | (k', v') :: ms, hu => by
+    simp only [utf8Members, Bool.and_eq_true] at hu
+    simp only [removeKey]
+    split
+    · exact removeKey_utf8 k ms hu.2
+    · simp [utf8Members, hu.1.1, hu.1.2, removeKey_utf8 k ms hu.2]
+
+mutual
+theorem dedup_utf8 : ∀ (j : J), j.utf8 = true → (dedup j).utf8 = true
+  | .arr xs, h => by
+    simp only [dedup, J.utf8]
+    exact dedupList_utf8 xs (by simpa [J.utf8] using h)
+  | .obj ms, h => by
+    simp only [dedup, J.utf8]
+    exact dedupMembers_utf8 ms (by simpa [J.utf8] using h)
+  | .null, _ => rfl
+  | .bool _, _ => rfl
+  | .num _, _ => rfl
+  | .str s, h => by simpa [dedup] using h
+theorem dedupList_utf8 : ∀ (xs : List J), utf8List xs = true → utf8List (dedupList xs) = true
+  | [], _ => rfl
+  | x :: xs, h => by
+    simp only [utf8List, Bool.and_eq_true] at h
+    simp [dedupList, utf8List, dedup_utf8 x h.1, dedupList_utf8 xs h.2]
+theorem dedupMembers_utf8 : ∀ (ms : List (Bytes × J)), utf8Members ms = true →
+    utf8Members (dedupMembers ms) = true
+  | [], _ => rfl
+  | (k, v) :: ms, h => by
+    simp only [utf8Members, Bool.and_eq_true] at h
+    have ih := dedupMembers_utf8 ms h.2
+    simp only [dedupMembers]
+    split
+    · rename_i v' hv'
+      simp [utf8Members, h.1.1, lookup_utf8 k _ v' ih hv', removeKey_utf8 k _ ih]
+    · simp [utf8Members, h.1.1, dedup_utf8 v h.1.2, ih]
+end
+
+theorem dedupFields_utf8 : ∀ (fs : List (Bytes × J)), utf8Members fs = true →
+    utf8Members (fs.map dedupField) = true
+  | [], _ => rfl
+  | (k, v) :: fs, h => by
+    simp only [utf8Members, Bool.and_eq_true] at h
+    simp only [List.map_cons, dedupField]
+    split
+    · simp [utf8Members, h.1.1, dedup_utf8 v h.1.2, dedupFields_utf8 fs h.2]
+    · simp [utf8Members, h.1.1, h.1.2, dedupFields_utf8 fs h.2]
+
+theorem dedupElem_utf8 (j : J) (h : j.utf8 = true) : (dedupElem j).utf8 = true := by
+  cases j <;> simp_all [dedupElem, J.utf8]
+  case obj fs => exact dedupFields_utf8 fs h
+
+theorem dedupTopMembers_utf8 : ∀ (ms : List (Bytes × J)), utf8Members ms = true →
+    utf8Members (ms.map fun (k, v) => (k, dedupElem v)) = true
+  | [], _ => rfl
+  | (k, v) :: ms, h => by
+    simp only [utf8Members, Bool.and_eq_true] at h
+    simp [utf8Members, h.1.1, dedupElem_utf8 v h.1.2, dedupTopMembers_utf8 ms h.2]
+
+theorem dedupTop_utf8 (j : J) (h : j.utf8 = true) : (dedupTop j).utf8 = true := by
+  cases j <;> simp_all [dedupTop, J.utf8]
+  case obj ms => exact dedupTopMembers_utf8 ms h
+
+/-- … and `dicom_json::from_str`, on a text with any tree, duplicate members included -/
+theorem from_str_no_panic (j : J) (h : j.utf8 = true) : fromStr j ≠ .panic :=
+  dsOfJ_ne_panic _ (dedupTop_utf8 j h)
+
+/-- `from_value` after `serde_json` built the `Value` of a text -/
+theorem from_value_of_text_no_panic (j : J) (h : j.utf8 = true) : fromValue (dedup j) ≠ .panic :=
+  dsOfJ_ne_panic _ (dedup_utf8 j h)
+
+/-! ### a tree without repeated member names is its own `Value` -/
+
+mutual
+def noDup : J → Bool
+  | .arr xs => noDupList xs
+  | .obj ms => noDupMembers ms
+  | _ => true
+def noDupList : List J → Bool
+  | [] => true
+  | x :: xs => noDup x && noDupList xs
+def noDupMembers : List (Bytes × J) → Bool
+  | [] => true
+  | (k, v) :: ms => (lookup k ms).isNone && noDup v && noDupMembers ms
+end
+
+mutual
+theorem dedup_id : ∀ (j : J), noDup j = true → dedup j = j
+  | .arr xs, h => by
+    simp only [dedup]
+    rw [dedupList_id xs (by simpa [noDup] using h)]
+  | .obj ms, h => by
+    simp only [dedup]
+    rw [dedupMembers_id ms (by simpa [noDup] using h)]
+  | .null, _ => rfl
+  | .bool _, _ => rfl
+  | .num _, _ => rfl
+  | .str _, _ => rfl
+theorem dedupList_id : ∀ (xs : List J), noDupList xs = true → dedupList xs = xs
+  | [], _ => rfl
+  | x :: xs, h => by
+    simp only [noDupList, Bool.and_eq_true] at h
+    simp [dedupList, dedup_id x h.1, dedupList_id xs h.2]
+theorem dedupMembers_id : ∀ (ms : List (Bytes × J)), noDupMembers ms = true →
+    dedupMembers ms = ms
+  | [], _ => rfl
+  | (k, v) :: ms, h => by
+    simp only [noDupMembers, Bool.and_eq_true, Option.isNone_iff_eq_none] at h
+    simp only [dedupMembers, dedupMembers_id ms h.2, h.1.1, dedup_id v h.1.2]
+end
+
+theorem dedupFields_id : ∀ (fs : List (Bytes × J)), noDupMembers fs = true →
+    fs.map dedupField = fs
+  | [], _ => rfl
+  | (k, v) :: fs, h => by
+    simp only [noDupMembers, Bool.and_eq_true] at h
+    simp only [List.map_cons, dedupField, dedupFields_id fs h.2]
+    split
+    · rw [dedup_id v h.1.2]
+    · rfl
+
+theorem dedupTopMembers_id : ∀ (ms : List (Bytes × J)), noDupMembers ms = true →
+    (ms.map fun (k, v) => (k, dedupElem v)) = ms
+  | [], _ => rfl
+  | (k, v) :: ms, h => by
+    simp only [noDupMembers, Bool.and_eq_true] at h
+    simp only [List.map_cons, dedupTopMembers_id ms h.2]
+    cases v <;> simp [dedupElem]
+    case obj fs => exact dedupFields_id fs (by simpa [noDup] using h.1.2)
+
+theorem dedupTop_id (j : J) (h : noDup j = true) : dedupTop j = j := by
+  cases j <;> simp [dedupTop]
+  case obj ms => exact dedupTopMembers_id ms (by simpa [noDup] using h)
+
+/-! ### the serialiser never repeats a member name -/
+
+theorem tagKey_inj {a b : Nat} (ha : a < 4294967296) (hb : b < 4294967296)
+    (h : tagKey a = tagKey b) : a = b := by
+  have h1 := parseTag_tagKey ha
+  have h2 := parseTag_tagKey hb
+  rw [h] at h1
+  rw [h1] at h2
+  simpa using h2
+
+theorem lookup_none_of_keys (k : Bytes) : ∀ (ms : List (Bytes × J)), k ∉ keysOf ms →
+    lookup k ms = none
+  | [], _ => rfl
+  | (k', v) :: ms, h => by
+    simp only [keysOf, List.mem_cons, not_or] at h
+    have : (k' == k) = false := by
+      simp; exact fun e => h.1 e.symm
+    simp [lookup, this, lookup_none_of_keys k ms h.2]
+
+theorem noDupList_map {α : Type} (f : α → J) (hf : ∀ a, noDup (f a) = true) :
+    ∀ (l : List α), noDupList (l.map f) = true
+  | [] => rfl
+  | a :: r => by simp [noDupList, hf a, noDupList_map f hf r]
+
+theorem noDup_floatItem (F : Fmt) (w : Nat → Nat) (x : Nat) : noDup (floatItem F w x) = true := by
+  unfold floatItem
+  split
+  · rfl
+  · split
+    · rfl
+    · split
+      · rfl
+      · split <;> rfl
+
+theorem noDup_intNum (i : Int) : noDup (intNum i) = true := by
+  unfold intNum; split <;> rfl
+
+theorem noDup_asNumbers (p : Prim) (j : J) (h : asNumbers p = .ok j) : noDup j = true := by
+  cases p <;> simp [asNumbers] at h <;> subst h <;> simp only [noDup]
+  case empty => rfl
+  case strs l => exact noDupList_map _ (fun _ => rfl) l
+  case str s => rfl
+  case u8 l => exact noDupList_map _ (fun _ => rfl) l
+  case i16 l => exact noDupList_map _ noDup_intNum l
+  case u16 l => exact noDupList_map _ (fun _ => rfl) l
+  case i32 l => exact noDupList_map _ noDup_intNum l
+  case u32 l => exact noDupList_map _ (fun _ => rfl) l
+  case i64 l => exact noDupList_map _ (fun i => by split <;> simp [noDup_intNum, noDup]) l
+  case u64 l => exact noDupList_map _ (fun i => by split <;> rfl) l
+  case f32 l => exact noDupList_map _ (noDup_floatItem _ _) l
+  case f64 l => exact noDupList_map _ (noDup_floatItem _ _) l
+
+theorem noDup_primMembers (vr : VR) (p : Prim) (ms : List (Bytes × J))
+    (h : primMembers vr p = .ok ms) : noDupMembers ((kVr, .str (vrName vr)) :: ms) = true := by
+  unfold primMembers at h
+  split at h
+  · simp at h; subst h; rfl
+  · split at h
+    · simp at h; subst h
+      have : noDup (asStrings p) = true := by
+        unfold asStrings
+        split
+        · exact noDupList_map _ (fun _ => rfl) _
+        · exact noDupList_map _ (fun _ => rfl) _
+      simp [noDupMembers, lookup, kVr_ne, this, noDup]
+    · simp at h; subst h
+      have : noDup (asPersonNames p) = true := by
+        unfold asPersonNames
+        exact noDupList_map _ (fun _ => rfl) _
+      simp [noDupMembers, lookup, kVr_ne, this, noDup]
+    · cases hn : asNumbers p with
+      | ok j =>
+        simp [hn] at h; subst h
+        simp [noDupMembers, lookup, kVr_ne, noDup_asNumbers p j hn, noDup]
+      | err => simp [hn] at h
+      | panic => simp [hn] at h
+    · simp at h; subst h
+      simp [noDupMembers, lookup, kVr_ne, inlineBinary, noDup]
+    · simp at h
+
+theorem tagsOf_mem_lt (es : List Elem) (h : elemsWf es = true) :
+    ∀ t ∈ tagsOf es, t < 4294967296 := tagsOf_lt es h
+
+mutual
+theorem noDup_elem : ∀ (e : Elem) (j : J), e.wf = true → elemToJson e = .ok j → noDup j = true
+  | .prim t vr p, j, _, h => by
+    simp only [elemToJson] at h
+    cases hm : primMembers vr p with
+    | ok ms =>
+      simp [hm] at h; subst h
+      simpa [noDup] using noDup_primMembers vr p ms hm
+    | err => simp [hm] at h
+    | panic => simp [hm] at h
+  | .seq t vr [], j, _, h => by
+    simp [elemToJson] at h; subst h; rfl
+  | .seq t vr (d :: ds), j, hw, h => by
+    simp only [Elem.wf, Bool.and_eq_true] at hw
+    simp only [elemToJson] at h
+    cases hi : itemsToJson (d :: ds) with
+    | ok js =>
+      simp [hi] at h; subst h
+      have := noDup_items (d :: ds) js hw.2 hi
+      simp [noDup, noDupMembers, lookup, kVr_ne, this]
+    | err => simp [hi] at h
+    | panic => simp [hi] at h
+  | .pix t vr, j, _, h => by
+    simp [elemToJson] at h; subst h; rfl
+theorem noDup_items : ∀ (items : List (List Elem)) (js : List J), itemsWf items = true →
+    itemsToJson items = .ok js → noDupList js = true
+  | [], js, _, h => by simp [itemsToJson] at h; subst h; rfl
+  | d :: ds, js, hw, h => by
+    simp only [itemsWf, Bool.and_eq_true] at hw
+    simp only [itemsToJson] at h
+    cases hm : membersToJson d with
+    | ok ms =>
+      cases hi : itemsToJson ds with
+      | ok js' =>
+        simp [hm, hi] at h; subst h
+        have h1 := noDup_members d ms hw.1.1 hw.1.2 hm
+        have h2 := noDup_items ds js' hw.2 hi
+        simp [noDupList, noDup, h1.1, h2]
+      | err => simp [hm, hi] at h
+      | panic => simp [hm, hi] at h
+    | err => simp [hm] at h
+    | panic => simp [hm] at h
+theorem noDup_members : ∀ (es : List Elem) (ms : List (Bytes × J)), elemsWf es = true →
+    sortedTags (tagsOf es) = true → membersToJson es = .ok ms →
+    noDupMembers ms = true ∧ keysOf ms = (tagsOf es).map tagKey
+  | [], ms, _, _, h => by simp [membersToJson] at h; subst h; exact ⟨rfl, rfl⟩
+  | e :: es, ms, hw, hs, h => by
+    simp only [elemsWf, Bool.and_eq_true] at hw
+    simp only [membersToJson] at h
+    cases he : elemToJson e with
+    | ok j =>
+      cases hm : membersToJson es with
+      | ok ms' =>
+        simp [he, hm] at h; subst h
+        have hs' : sortedTags (e.tag :: tagsOf es) = true := by simpa [tagsOf] using hs
+        have ih := noDup_members es ms' hw.2 (sorted_tail _ _ hs') hm
+        have hj := noDup_elem e j hw.1 he
+        refine ⟨?_, by simp [keysOf, tagsOf, ih.2]⟩
+        have hnot : tagKey e.tag ∉ keysOf ms' := by
+          rw [ih.2]
+          intro hmem
+          simp only [List.mem_map] at hmem
+          obtain ⟨t, ht, hk⟩ := hmem
+          have hlt := sorted_head_lt _ _ hs' t ht
+          have := tagKey_inj (tagsOf_mem_lt es hw.2 t ht) (Elem.wf_tag e hw.1) hk
+          omega
+        simp [noDupMembers, lookup_none_of_keys _ _ hnot, hj, ih.1]
+      | err => simp [he, hm] at h
+      | panic => simp [he, hm] at h
+    | err => simp [he] at h
+    | panic => simp [he] at h
+end
+
+/-- the written tree has no repeated member name, so reading it as a text (streamed, with
+`Value`s going through `serde_json::Value`) is reading the tree -/
+theorem fromStr_toJson (ds : DataSet) (hw : ds.wf = true) (j : J) (h : toJson ds = .ok j) :
+    fromStr j = fromValue j := by
+  simp only [DataSet.wf, Bool.and_eq_true] at hw
+  unfold toJson at h
+  cases hm : membersToJson ds with
+  | ok ms =>
+    simp [hm] at h; subst h
+    have := (noDup_members ds ms hw.1 hw.2 hm).1
+    simp only [fromStr, fromValue]
+    rw [dedupTop_id _ (by simpa [noDup] using this)]
+  | err => simp [hm] at h
+  | panic => simp [hm] at h
+
+/-- **C23, first sentence, text path.** `from_str(to_string(ds))`, given that the JSON text layer
+hands back the tree that was written. -/
+theorem json_rt_text (hF : F32WidenNarrow) (ds : DataSet) (hw : ds.wf = true)
+    (ht : elemsTyped ds = true) (hp : elemsNoPix ds = true) :
+    ∃ j, toJson ds = .ok j ∧ fromStr j = .ok (normDs ds) := by
+  obtain ⟨j, h1, h2⟩ := json_rt hF ds hw ht hp
+  exact ⟨j, h1, by rw [fromStr_toJson ds hw j h1]; exact h2⟩
 
 end Dicom.Json
